@@ -2,16 +2,20 @@
 """Freeze the vocabulary the rules were written against (regenerate after every commit to /repo):
 tables/known_functions.txt  <config> <function key> <signature>   every function of /repo's workspace, per build configuration
 tables/known_fields.txt     <adt> <variant> <index> <field name> <type>   fields of the workspace's own types
+tables/known_consts.txt     <const key> <type> <evaluated integer>   named constants with an integer value
 engine/mir.py uses them on the analysed tree (a) to resolve an unambiguous rename of a private function or field back to the
 name the rules know, and (b) to expand calls to helpers that are new (unknown to every rule) at their call sites."""
 import sys
 sys.path.insert(0, "/verif")
 from engine import facts, mir
-fn, fields = [], {}
+fn, fields, kconsts = [], {}, {}
 for cfg in ("ws", "h3-plain"):
     prog = facts.load(cfg)
     for b in prog.bodies:
         fn.append("%s\t%s\t%s" % (cfg, b.key, mir.signature(b.j)))
+    for c, d in prog.crates.items():
+        for k in d["consts"]:
+            kconsts[k["key"]] = (k.get("ty") or "?", str(k.get("int")))
     for a in prog.adts.values():
         if a["adt"].startswith("h3"):
             for v in a["variants"]:
@@ -21,4 +25,6 @@ with open("/verif/tables/known_functions.txt", "w") as fh:
     fh.write("\n".join(sorted(set(fn))) + "\n")
 with open("/verif/tables/known_fields.txt", "w") as fh:
     fh.write("\n".join("%s\t%s\t%d\t%s\t%s" % (k + v) for k, v in sorted(fields.items())) + "\n")
-print(len(fn), "function keys,", len(fields), "fields")
+with open("/verif/tables/known_consts.txt", "w") as fh:
+    fh.write("\n".join("%s\t%s\t%s" % (k, v[0], v[1]) for k, v in sorted(kconsts.items())) + "\n")
+print(len(fn), "function keys,", len(fields), "fields,", len(kconsts), "constants")
